@@ -74,7 +74,9 @@ def judge (op : List String) (go : String) : Verdict :=
       let nt := match mo with | .ok _ d _ => d ≥ 2 || (modulo.getD 0) > 1 | .exhausted d => d ≥ 1 | _ => false
       let tags := if nt then "!nt" :: tags else tags
       -- spec, judged independently of the model
-      if go == "panic" || go == "hang" || go.startsWith "err" then
+      if go == "spin" then
+        .violation "does-not-terminate-without-consuming-source" "value-or-zero-modulo-user-error" tags
+      else if go == "panic" || go == "hang" || go.startsWith "err" then
         .violation "go-panic-or-internal" "value-or-zero-modulo-user-error" tags
       else match modulo with
       | some 0 => if go == "zero" then (if go == m then .ok tags else .modelDiff m tags)
